@@ -1,5 +1,6 @@
 import PyramidModel.Lemmas.Route
 import PyramidModel.Lemmas.RouteParse
+import PyramidModel.Lemmas.RouteParseOld
 import PyramidModel.Gen.C01
 /-!
 # C01 — URL dispatch picks the first declared route whose pattern and predicates match
@@ -13,18 +14,20 @@ Reading guide
 * §1 the backtracking matcher `Rx.run` against the declarative language `Rx.Lang`: sound for every regex,
   complete (and hence exact) for the fragment `Rx.ok`; the default placeholder `[^/]+` tries longer captures first.
 * §2 a compiled pattern against the declarative spec `Splits`: whatever `route.match` returns is a reading of the
-  *whole* path in which literals stand for themselves and every placeholder holds a text of its regex's language
-  (`match_sound`); the set of all readings `re` can backtrack through is exactly `Splits … NoLF`
-  (`match_all_exact`); so a pattern matches iff the path has a reading — except that a `*rest` cannot contain a line
-  feed (`match_complete_partial`, with the excluded point proved to fail: the recorded finding F-C01b); for default
-  placeholders the reading chosen is the leftmost-longest one (`match_priority_default`).
+  *whole* path in which literals stand for themselves, every placeholder holds a text of its regex's language and a
+  `*rest` holds whatever is left (`match_sound`); the set of all readings `re` can backtrack through is exactly
+  `Splits` (`match_all_exact`); so a pattern matches iff the path has a reading (`match_complete`, full since the
+  remainder group became `(?s:.*?)` in fc43a19 — the old `.*?` is kept as a regression fact,
+  `old_remainder_template_excluded_newline`); for default placeholders the reading chosen is the leftmost-longest
+  one (`match_priority_default`).
 * §3 the mapper: the route returned is the least index whose pattern matches and whose predicates hold
   (`mapper_first`, any list length), `none` iff no route qualifies, invalid UTF-8 is refused before any route is
   looked at, an empty or missing path is `/`, re-declaring a name replaces the old route and moves it to the end,
   static routes are never consulted.
 * §4 the pattern parser: on the text of any pattern written according to the documented grammar (new style, or
   without `:name` markers) `_compile_route`'s parsing gives back exactly the prefix, placeholders (name, regex text),
-  literals and remainder name it was written from (`parse_render`), hence the expected token list (`compile_render`).
+  literals and remainder name it was written from (`parse_render`), hence the expected token list (`compile_render`);
+  the same for old-style `:name` patterns (`parse_render_old`).
 -/
 namespace Pyr.Route
 
@@ -44,8 +47,8 @@ theorem default_regex_text : Rx.print Rx.notSlashPlus = Pyr.Gen.C01.phDefaultTex
 
 /-- the remainder group and the anchor the model prints are the source's -/
 theorem rest_and_anchor_text :
-    regexText [.rest ['r']] = "(?P<r>.*?)".toList ++ Pyr.Gen.C01.anchorText.toList ∧
-    Pyr.Gen.C01.restTplText = "(?P<%s>.*?)" := by decide
+    regexText [.rest ['r']] = "(?P<r>(?s:.*?))".toList ++ Pyr.Gen.C01.anchorText.toList ∧
+    Pyr.Gen.C01.restTplText = "(?P<%s>(?s:.*?))" := by decide
 
 /-! ## 1. the regex matcher -/
 
@@ -88,44 +91,38 @@ language of its regex, the remainder any text; and the dictionary holds exactly 
 `split_path_info` of its text). -/
 theorem match_sound (u : Ucd) (ts : List Tok) (p : Text) (e : Env) (h : matchToks u ts p = some e) :
     Splits u (fun _ => True) ts p e :=
-  (matchAll_sound u ts p e (List.mem_of_head? h)).mono (fun _ _ => trivial)
+  matchAll_sound u ts p e (List.mem_of_head? h)
 
 example : matchToks Ucd.ascii [.lit "/a.b/".toList, .ph "x".toList Rx.notSlashPlus, .rest "r".toList] "/a.b/v/s/./t".toList
     = some [("x".toList, .str "v".toList), ("r".toList, .segs ["s".toList, "t".toList])] := by decide
 
-/-- The alternatives `re` can backtrack through are exactly the readings of the path in which the remainder has
-no line feed. -/
+/-- The alternatives `re` can backtrack through are exactly the readings of the path. -/
 theorem match_all_exact (u : Ucd) (ts : List Tok) (hok : toksOk ts = true) (p : Text) (e : Env) :
-    e ∈ matchAll u .endOfString ts p ↔ Splits u NoLF ts p e :=
+    e ∈ matchAll u .endOfString ts p ↔ Splits u (fun _ => True) ts p e :=
   ⟨matchAll_sound u ts p e, matchAll_complete u hok⟩
 
-/-- **Completeness (partial).**  A path that has a reading is matched — provided the reading's remainder has no
-line feed.  Missing for the full statement: `*rest` is compiled to `.*?` and `.` does not match LF. -/
-theorem match_complete_partial (u : Ucd) (ts : List Tok) (hok : toksOk ts = true) (p : Text) (e : Env)
-    (h : Splits u NoLF ts p e) : (matchToks u ts p).isSome = true := by
+/-- **Completeness.**  A path that has a reading — literals verbatim, placeholder texts in their regex's language,
+the remainder *any* text, line feeds included — is matched. -/
+theorem match_complete (u : Ucd) (ts : List Tok) (hok : toksOk ts = true) (p : Text) (e : Env)
+    (h : Splits u (fun _ => True) ts p e) : (matchToks u ts p).isSome = true := by
   have := matchAll_complete u hok h
   unfold matchToks
   cases hm : matchAll u .endOfString ts p with
   | nil => rw [hm] at this; simp at this
   | cons _ _ => simp
 
-/-- Full completeness for patterns without `*rest`. -/
-theorem match_complete_no_rest (u : Ucd) (ts : List Tok) (hok : toksOk ts = true) (hnr : hasRest ts = false)
-    (p : Text) (e : Env) (h : Splits u (fun _ => True) ts p e) : (matchToks u ts p).isSome = true :=
-  match_complete_partial u ts hok p e (h.of_noRest hnr)
+example : toksOk [.lit "/a/".toList, .ph "x".toList Rx.notSlashPlus, .rest "r".toList] = true := by decide
+example : Splits Ucd.ascii (fun _ => True) [.lit "/a/".toList, .rest "r".toList] ("/a/".toList ++ ("b\nc".toList ++ []))
+    [("r".toList, .segs (splitPathInfo "b\nc".toList))] :=
+  .lit (.rest trivial .nil)
 
-example : toksOk [.lit "/a/".toList, .ph "x".toList Rx.notSlashPlus] = true ∧
-    hasRest [.lit "/a/".toList, .ph "x".toList Rx.notSlashPlus] = false := by decide
-example : Splits Ucd.ascii NoLF [.lit "/a/".toList, .rest "r".toList] ("/a/".toList ++ ("b".toList ++ []))
-    [("r".toList, .segs (splitPathInfo "b".toList))] :=
-  .lit (.rest (by decide) .nil)
-
-/-- The excluded point (recorded finding F-C01b): `/a/*rest` has a reading of `/a/b⏎c` but does not match it. -/
-theorem rest_cannot_span_newline :
-    Splits Ucd.ascii (fun _ => True) [.lit "/a/".toList, .rest "rest".toList] ("/a/".toList ++ ("b\nc".toList ++ []))
-        [("rest".toList, .segs (splitPathInfo "b\nc".toList))] ∧
-      matchToks Ucd.ascii [.lit "/a/".toList, .rest "rest".toList] "/a/b\nc".toList = none :=
-  ⟨.lit (.rest trivial .nil), by decide⟩
+/-- The repaired defect F-C01b as a regression fact: a remainder may now span a line feed; the old template `.*?`
+offered no alternative that consumes `b⏎c` entirely. -/
+theorem old_remainder_template_excluded_newline :
+    matchToks Ucd.ascii [.lit "/a/".toList, .rest "rest".toList] "/a/b\nc".toList =
+        some [("rest".toList, .segs ["b\nc".toList])] ∧
+      (Rx.run Ucd.ascii Rx.lazyDotStar "b\nc".toList).all (fun x => x.2 != []) = true ∧
+      (Rx.run Ucd.ascii Rx.lazyAllStar "b\nc".toList).any (fun x => x.2 == []) = true := by decide
 
 /-- A literal matches itself and nothing else (whatever characters it contains). -/
 theorem literal_matches_only_itself (u : Ucd) (l p : Text) : (matchToks u [.lit l] p).isSome = true ↔ p = l := by
@@ -136,8 +133,8 @@ theorem literal_matches_only_itself (u : Ucd) (l p : Text) : (matchToks u [.lit 
     cases hs with
     | lit h2 => cases h2; simp
   · rintro rfl
-    have : Splits u NoLF [.lit p] (p ++ []) [] := .lit .nil
-    simpa using match_complete_partial u [.lit p] rfl (p ++ []) [] this
+    have : Splits u (fun _ => True) [.lit p] (p ++ []) [] := .lit .nil
+    simpa using match_complete u [.lit p] rfl (p ++ []) [] this
 
 example : matchToks Ucd.ascii [.lit "/a.b".toList] "/aXb".toList = none := by decide
 
@@ -150,7 +147,7 @@ theorem dollar_anchor_unsound :
 /-- **Priority.**  With default placeholders the dictionary returned is the leftmost-longest reading: its vector of
 capture lengths is lexicographically at least that of any other reading of the path. -/
 theorem match_priority_default (u : Ucd) (ts : List Tok) (hd : defaultOnly ts = true) (p : Text) (e e' : Env)
-    (h : matchToks u ts p = some e) (h' : Splits u NoLF ts p e') : lexGE (phLens e) (phLens e') := by
+    (h : matchToks u ts p = some e) (h' : Splits u (fun _ => True) ts p e') : lexGE (phLens e) (phLens e') := by
   have hs := matchAll_sorted u .endOfString ts p hd
   have hm := matchAll_complete u (defaultOnly_toksOk ts hd) h'
   unfold matchToks at h
@@ -420,6 +417,22 @@ example : String.ofList (renderRaw "/a.b/".toList
 by a name start -/
 example : RawWf Ucd.ascii "/a*b/c:/9".toList [] none :=
   ⟨by decide, by decide, by decide, Or.inr (by decide), by decide⟩
+/-- **Old-style parser round trip.**  A pattern written with `:name` markers only — `/`-led prefix, each marker a
+name `[_a-zA-Z]\\w*` followed by a literal that has no `{`, does not start with a word character (the name would swallow
+it) and contains no `:` + name-start, optional `*name` — is read as exactly those placeholders with the default regex:
+`old_route_re.sub` rewrites every `:name` to `{name}` and nothing else, and the new-style parser takes over. -/
+theorem parse_render_old (u : Ucd) (pfx : Text) (ps : List (Text × Text)) (rem : Option Text) (h : OldWf u pfx ps rem) :
+    parseRoute u (renderOldRaw pfx ps rem) = { pfx := pfx, pieces := oldPieces ps, remainder := rem } :=
+  parse_render_old_raw u pfx ps rem h
+
+/-- non-vacuity: `/a/:x-:y2/b:*rest` -/
+example : OldWf Ucd.ascii "/a/".toList [("x".toList, "-".toList), ("y2".toList, "/b:".toList)] (some "rest".toList) :=
+  ⟨by decide, by decide, by decide, by simp, by decide, by decide⟩
+example : String.ofList (renderOldRaw "/a/".toList [("x".toList, "-".toList), ("y2".toList, "/b:".toList)] (some "rest".toList))
+    = "/a/:x-:y2/b:*rest" := by decide
+/-- outside the hypothesis: a literal starting with a word character is swallowed by the name before it -/
+example : oldPieceWf Ucd.ascii ("x".toList, "y/".toList) = false := by decide
+
 /-- outside the hypothesis: a literal that ends in `*word` is (by design of the grammar) a remainder marker -/
 example : restWf Ucd.ascii "/a*b".toList none = false := by decide
 
